@@ -356,6 +356,50 @@ Definition inline_class (lr : lranks) (ce : M_C28.callee) (u : unit (list stmt))
   && nodupb (map fst (callee_decls lr ce))
   && forallb (sites_ok (u_env u) ce) (u_body u).
 
+(** ** inlining with [allowed_aliases]
+    A callee local whose name is in [allowed_aliases] is never renamed.  If the caller DECLARES a variable of that
+    name the two are shared (the callee's declaration is dropped: "s not in routine.variables"); if the caller does
+    not declare it, the callee's declaration is hoisted under its own name like any other non-clashing local. *)
+Definition cvars_al (al cvars : list string) : list string := filter (fun x => negb (mem x al)) cvars.
+Definition shared_alias (al cvars : list string) (v : string) : bool := mem v al && mem v cvars.
+
+Definition hoisted_decls_al (al cvars : list string) (lr : lranks) (ce : M_C28.callee) : denv :=
+  let cv := cvars_al al cvars in
+  map (fun v => (if M_C28.mem v cv then M_C28.ren (M_C28.ce_name ce) v else v, KScalar))
+      (filter (fun v => negb (shared_alias al cvars v)) (M_C28.ce_locals ce))
+  ++ map (fun a => (if M_C28.mem a cv then M_C28.ren (M_C28.ce_name ce) a else a, KArray (rank_of lr a)))
+         (filter (fun a => negb (shared_alias al cvars a)) (M_C28.ce_larrs ce)).
+
+Definition T_inline_al (al : list string) (lbc : list (string * list Z)) (lr : lranks) (ce : M_C28.callee)
+           (u : unit (list stmt)) : option (unit (list stmt)) :=
+  let cvars := map fst (u_decls u) in
+  match M_C28.inline_body (cvars_al al cvars) lbc ce (u_body u) with
+  | Some b' => Some (mkUnit (u_args u) (u_decls u ++ hoisted_decls_al al cvars lr ce) (u_shapes u) (u_ext u) (u_inner u) b')
+  | None => None
+  end.
+
+Fixpoint T_inline_all_al (al : list string) (lbc : list (string * list Z)) (lrs : list lranks) (ces : list M_C28.callee)
+         (u : unit (list stmt)) : option (unit (list stmt)) :=
+  match ces, lrs with
+  | [], _ => Some u
+  | ce :: r, lr :: q => match T_inline_al al lbc lr ce u with Some u' => T_inline_all_al al lbc q r u' | None => None end
+  | ce :: r, [] => match T_inline_al al lbc [] ce u with Some u' => T_inline_all_al al lbc [] r u' | None => None end
+  end.
+
+(** class: as [inline_class], and a shared alias is declared in the caller with the kind the callee gives it *)
+Definition inline_class_al (al : list string) (lr : lranks) (ce : M_C28.callee) (u : unit (list stmt)) : bool :=
+  let cvars := map fst (u_decls u) in
+  let h := map fst (hoisted_decls_al al cvars lr ce) in
+  arrays_subscripted ce && nodupb (cvars ++ h)
+  && forallb (fun x => negb (mem x (map fst (u_ext u)))) h
+  && nodupb (map fst (callee_decls lr ce))
+  && forallb (sites_ok (u_env u) ce) (u_body u)
+  && forallb (fun v => negb (shared_alias al cvars v)
+                       || match klookup (u_decls u) v with Some KScalar => true | _ => false end) (M_C28.ce_locals ce)
+  && forallb (fun a => negb (shared_alias al cvars a)
+                       || match klookup (u_decls u) a with Some k => kind_eqb k (KArray (rank_of lr a)) | None => false end)
+             (M_C28.ce_larrs ce).
+
 (* ------------------------------------------------------------------------------------------ *)
 (** * 6. do_remove_unused_vars (C32's unused_locals = find_unused_dummy_args_and_vars) *)
 
@@ -564,6 +608,15 @@ Definition chk_vec_tie (pre : unit (list M_C30.vstmt)) (post : option (unit (lis
 Definition chk_inline (lbc : list (string * list Z)) (lrs : list lranks) (ces : list M_C28.callee)
            (pre : unit (list stmt)) (post : unit (list stmt)) : bool :=
   match T_inline_all lbc lrs ces pre with
+  | Some m =>
+      well_scopedb uses_stmts pre && denv_eqb (u_decls m) (u_decls post)
+      && MiniF.stmts_eqb (M_C28.norm_stmts (u_body m)) (M_C28.norm_stmts (u_body post)) && chk_ws post
+  | None => false
+  end.
+
+Definition chk_inline_al (al : list string) (lbc : list (string * list Z)) (lrs : list lranks) (ces : list M_C28.callee)
+           (pre : unit (list stmt)) (post : unit (list stmt)) : bool :=
+  match T_inline_all_al al lbc lrs ces pre with
   | Some m =>
       well_scopedb uses_stmts pre && denv_eqb (u_decls m) (u_decls post)
       && MiniF.stmts_eqb (M_C28.norm_stmts (u_body m)) (M_C28.norm_stmts (u_body post)) && chk_ws post
